@@ -66,6 +66,46 @@ CLAIMED = {
             "Every event history over 4 hosts up to length 4 (quick) / 5 hosts up to length 5 (thorough) is enumerated with plans created, held and drained after every prefix; longer random histories, the 2^32/2^64 counter boundaries (hook) and a concurrent variant are searched with rapid. A pure in-memory API, so exhaustive-to-a-bound plus random search is the natural level.",
             "Trusts the set-based membership model; AddEvent of an already-present host is outside the domain; concurrent variant samples schedules, does not enumerate them.",
             "DESIGN.md §2.15"),
+    "C07": ("exploration",
+            "rapid-generated multi-client histories (USE in every spelling, data requests, parallel USE, reconnects) against a per-client model of (version, compression, keyspace); oracle on the backend connection each request arrived on",
+            "2..5 clients of different versions/compressions, generated keyspace sets including names that differ only by case or need quoting; every tokenised QUERY/PREPARE/EXECUTE/BATCH must arrive on a backend connection whose recorded keyspace, version and compression equal the model's; USE must answer SET_KEYSPACE with the folded name or relay the backend's error and leave the state unchanged.",
+            "The fake backend implements Cassandra's identifier rule for USE; interleavings of parallel USE are sampled.",
+            "DESIGN.md §2.7"),
+    "C08": ("fault_enumeration",
+            "rapid-generated prepare/execute histories with injected backend amnesia, restarts, late-joining hosts, concurrent bursts and scripted failures of the proxy's re-preparations; history invariant on client replies",
+            "1..3 clients over 2..4 hosts x 1..2 connections; hosts forget one id or everything, restart, or join after start-up; an EXECUTE/BATCH of ids PREPAREd through the proxy must never be answered UNPREPARED, must succeed whenever fewer re-preparations are scripted to fail than hosts are up, and must always be answered.",
+            "Statement texts are partitioned by client class (version, compression); sharing a text between classes is the recorded finding C08 cross-session-reprepare (separate 'shared' sub-check, reported as KNOWN-FINDING).",
+            "DESIGN.md §2.8"),
+    "C14": ("exploration",
+            "rapid-generated registration/disconnect/event/failover histories against a set model of registered clients; exact-delivery oracle using an ordered marker event and an OPTIONS fence",
+            "1..5 clients plus a witness; REGISTER for any subset of event types, reconnects, events of all kinds and schema targets, control-connection failover (also past a lower-version host), clients dying while their reader is busy; after every emit each registered client has exactly one new EVENT equal to the emitted one and every other client none.",
+            "Events emitted while no control connection exists are not owed; the version byte of EVENT frames is not asserted.",
+            "DESIGN.md §2.14"),
+    "C16": ("fault_enumeration",
+            "rapid-generated reconnect-policy call sequences against an envelope model; rapid-generated backend fault sequences with bounded-eventuality convergence oracle (routing == live members); readiness endpoint of the real binary across an outage",
+            "Backoff: log-uniform base/max, NextDelay/Reset/Clone sequences. Healing: nodes added/removed/restarted, pooled and control connections dropped singly and together, silent connections, total outage, refusing node (attempt-rate bound), with millisecond timers; after each action probe requests must be routed to exactly the live members, pools must be complete, exactly one control connection must exist, within 400x the timers.",
+            "Liveness is decided as a bounded eventuality with a stall watchdog (missed bound on a stalled machine = inconclusive); the 10s refresh window is shortened through a verif hook; reconnect bases above 2^44 ns are not generated.",
+            "DESIGN.md §2.16"),
+    "C17": ("fault_enumeration",
+            "rapid-generated hostile client byte streams (structured: hostile strings in every field, then header/framing mutations) and hostile backend replies, against the proxy as a child process; survival + canary-service oracle",
+            "The real binary (or a host program with fast timers) runs as a child; generated hostile clients and scripted hostile backend replies (to forwarded and to the proxy's own requests); after each case the process must be alive and a well-behaved canary's system query, forwarded query and prepared execute must be answered correctly.",
+            "Declared lengths above 16 MiB are out of scope; the TLS listener (--proxy-cert-file) is not exercised; the canary retries for up to 4s after hostile backend replies.",
+            "DESIGN.md §2.17"),
+    "C18": ("exploration",
+            "the generated scenario families of C01/C02/C07/C08/C14/C16 plus a generated concurrent client/chaos mix, executed with harness and proxy compiled with -race; oracle: the Go race detector (reports with both access sites in cql-proxy)",
+            "Each generated case runs many proxy goroutines against shared state (sessions, pools, prepared cache, load balancer, event fan-out, handshake state) while the backend injects faults; every race report inside cql-proxy is a violation identified by the pair of functions; 'concurrent map' fatal errors likewise.",
+            "A dynamic detector: no false positives, but only races on executions that occurred; functional oracles are ignored here.",
+            "DESIGN.md §2.18"),
+    "C19": ("exploration",
+            "rapid-generated bundle host names and server certificate chains from an in-process PKI; TLS probe servers; accept/reject oracle by construction, cross-checked with a plain crypto/tls client",
+            "Valid chains (leaf, leaf+intermediate, wildcard) must be accepted with SNI = node id, the bundle's client certificate and then STARTUP; every invalid chain (other CA, forged issuer name, self-signed, wrong/sibling name, CN-only, expired / not yet valid, missing intermediate) must fail with zero application bytes sent, for both the metadata service and database nodes.",
+            "Names resolve through an in-process stub DNS; validity deltas >= 2 minutes.",
+            "DESIGN.md §2.19"),
+    "C20": ("exploration",
+            "exhaustive enumeration of documented option spellings x channels plus rapid-generated configurations, run through the real binary; oracle: tables transcribed from README/--help",
+            "All (protocol-version, max-protocol-version) pairs, every consistency name as listed level and override, via long/short flags, environment and YAML, in mixed case; invalid values, heartbeat/idle around equality, num-conns around 1, missing backend: valid => serves with exactly the named behaviour observed on the wire; invalid => non-zero exit without serving.",
+            "The relative order of v5 and DSE versions is undocumented (expectation 'either').",
+            "DESIGN.md §2.20"),
 }
 
 NOT_APPLICABLE = {}
